@@ -157,16 +157,21 @@ TG_GRID = (0, 8, 10, 11, 16, 24, 32)
 
 
 def _check_tgzc(case):
-    ivs, pts, adjP, adjI = case
+    ivs, pts, adjP, adjI = case[:4]
+    ivs2, pts2 = case[4] if len(case) > 4 else (None, None)  # a second interval tier and a second point tier (None: absent)
     n = len(BASE)
     w = mkwav(BASE, 2, RATE)
-    E = [(a / RATE, b / RATE, "ab"[i]) for i, (a, b) in enumerate(ivs)]
-    P = [(t / RATE, "P%d" % i) for i, t in enumerate(pts)]
+    spec = [("w", "I", [(a / RATE, b / RATE, "ab"[i]) for i, (a, b) in enumerate(ivs)]),
+            ("p", "P", [(t / RATE, "P%d" % i) for i, t in enumerate(pts)])]
+    if pts2 is not None:
+        spec.append(("q", "P", [(t / RATE, "Q%d" % i) for i, t in enumerate(pts2)]))
+    if ivs2 is not None:
+        spec.append(("v", "I", [(a / RATE, b / RATE, "cd"[i]) for i, (a, b) in enumerate(ivs2)]))
     tg = Textgrid(0, n / RATE)
-    tg.addTier(IT("w", E, 0, n / RATE))
-    tg.addTier(PT("p", P, 0, n / RATE))
+    for nm, kind, E in spec:
+        tg.addTier((IT if kind == "I" else PT)(nm, E, 0, n / RATE))
     st, r, _ = guarded(praatio_scripts.tgBoundariesToZeroCrossings, tg.new(), w, adjP, adjI)
-    tag = f"tgBoundariesToZeroCrossings intervals={ivs} points={pts} adjustPointTiers={adjP} adjustIntervalTiers={adjI}"
+    tag = f"tgBoundariesToZeroCrossings tiers={[(nm, [tuple(e) for e in E]) for nm, _, E in spec]} adjustPointTiers={adjP} adjustIntervalTiers={adjI}"
     if st == "hang":
         return 1, "hang", None, [Viol("non-termination", tag)]
     if st == "exc":
@@ -174,32 +179,38 @@ def _check_tgzc(case):
             return 1, "praatio-error", None, []
         return 1, "X", None, [Viol("tgzc-raised:" + type(r).__name__, f"{tag}: {r!r}")]
     viols = []
-    if tuple(r.tierNames) != ("w", "p"):
+    got = tuple(r.tierNames)
+    if got != tuple(nm for nm, _, _ in spec):
         viols.append(Viol("tgzc-tier-order", f"{tag}: tiers {r.tierNames}"))
         return 1, "!", None, viols
-    wt, pt = r.getTier("w"), r.getTier("p")
-    if [e[2] for e in wt.entries] != [e[2] for e in E]:
-        viols.append(Viol("tgzc-labels", f"{tag}: interval labels {[e[2] for e in wt.entries]}"))
-    if sorted(e[1] for e in pt.entries) != sorted(e[1] for e in P):
-        viols.append(Viol("tgzc-point-labels", f"{tag}: point labels {[e[1] for e in pt.entries]}"))
 
     def cross(t):
         i = t * RATE
         return abs(i - round(i)) < 1e-6 and is_crossing(BASE, round(i))
-    for e, orig in zip(wt.entries, E):
-        if adjI and not (cross(e[0]) and cross(e[1])):
-            viols.append(Viol("tgzc-not-a-crossing", f"{tag}: interval {tuple(e)} has a boundary that is not a zero crossing"))
+    for nm, kind, E in spec:
+        if nm not in got:
+            continue
+        t = r.getTier(nm)
+        adj = adjI if kind == "I" else adjP
+        if kind == "I":
+            if [e[2] for e in t.entries] != [e[2] for e in E]:
+                viols.append(Viol("tgzc-labels", f"{tag}: tier {nm}: interval labels {[e[2] for e in t.entries]}"))
+                break
+        elif sorted(e[1] for e in t.entries) != sorted(e[1] for e in E):
+            viols.append(Viol("tgzc-point-labels", f"{tag}: tier {nm}: point labels {[e[1] for e in t.entries]}"))
             break
-        if not adjI and tuple(e) != orig:
-            viols.append(Viol("tgzc-touched", f"{tag}: interval tier changed although adjustIntervalTiers=False"))
+        if not adj:
+            if ents(t) != [tuple(e) for e in E]:
+                viols.append(Viol("tgzc-touched", f"{tag}: tier {nm} changed although its type is not adjusted"))
+                break
+            continue
+        for e in t.entries:
+            if not all(cross(x) for x in tuple(e)[:-1]):
+                viols.append(Viol("tgzc-not-a-crossing", f"{tag}: tier {nm}: entry {tuple(e)} has a time that is not a zero crossing"))
+                break
+        if viols:
             break
-    for e in pt.entries:
-        if adjP and not cross(e[0]):
-            viols.append(Viol("tgzc-not-a-crossing", f"{tag}: point {tuple(e)} is not on a zero crossing"))
-            break
-    if not adjP and ents(pt) != P:
-        viols.append(Viol("tgzc-touched", f"{tag}: point tier changed although adjustPointTiers=False"))
-    return 1, "ok", (len(ivs), len(pts), adjP, adjI), viols
+    return 1, "ok", (len(ivs), len(pts), adjP, adjI, ivs2 is not None and len(ivs2), pts2 is not None and len(pts2)), viols
 
 
 # ------------------------------------------------------------------ audioSplice
@@ -286,6 +297,13 @@ def parts(tier):
             for pts in ((), (10,), (9, 11), (0, 32), (8, 16, 24)):
                 for adjP, adjI in ((True, True), (False, True), (True, False)):
                     yield (ivs, pts, adjP, adjI)
+        # two tiers of each type, in the order w, p, q, v: nothing may carry over from one tier to the next
+        for ivs in D.interval_sets(TG_GRID, 2)[::3]:
+            for pts in ((), (10,), (9, 11)):
+                for ivs2 in ((), ((8, 16),), ((0, 10), (11, 32))):
+                    for pts2 in ((), (16,), (8, 24)):
+                        for adjP, adjI in ((True, True), (False, True), (True, False)):
+                            yield (ivs, pts, adjP, adjI, (ivs2, pts2))
 
     def gen_splice():
         for ivs in D.interval_sets(SP_GRID, 2):
@@ -308,8 +326,8 @@ def parts(tier):
                   rule="every recording over {-2,0,1}^4..5 x 7 in-place edits x every on-grid target x 2 steps: lookup, edit the same live Wav, "
                        "lookup again = the answer of a fresh Wav with the current samples (history independence)", bounds={}, chunk=8),
         InputPart("tgBoundariesToZeroCrossings", gen_tgzc, _check_tgzc,
-                  rule="interval sets (<=2) on boundaries %s x point sets x adjust flags over a 32-sample dense-crossing recording at rate "
-                       "1000: only timestamps change, each to a crossing; tier order, counts, labels kept (a praatio error is accepted "
+                  rule="interval sets (<=2) on boundaries %s x point sets x adjust flags (and textgrids with two interval and two point tiers) over a 32-sample "
+                       "dense-crossing recording at rate 1000: only timestamps change, each to a crossing; tier order, counts, labels kept (a praatio error is accepted "
                        "when boundaries collapse)" % (TG_GRID,), bounds={}),
         InputPart("audioSplice", gen_splice, _check_splice,
                   rule="interval sets (<=2) x point sets x insertion points x optional replaced region x alignToZeroCrossing: durations "
